@@ -342,6 +342,8 @@ def _ab_unit(which):
     return unit
 
 
+from . import C06_adaptive
+
 UNITS = [
     ("euler.single_step", _single_step_unit("pde.solvers.euler", "EulerSolver", S.euler, "euler")),
     ("runge_kutta.single_step", _single_step_unit("pde.solvers.runge_kutta", "RungeKuttaSolver", S.rk4, "rk4")),
@@ -352,7 +354,7 @@ UNITS = [
     ("numba.fixed_stepper", _fixed_loop_unit("numba")),
     ("adams_bashforth.python", _ab_unit("python")),
     ("adams_bashforth.numba", _ab_unit("numba")),
-]
+] + C06_adaptive.UNITS
 
 
 def bounded(tier, seed):
@@ -364,7 +366,7 @@ def bounded(tier, seed):
     res = native("steppers.py", {"seed": seed, "reps": reps}, timeout=3000)
     if not res.get("ok"):
         raise RuntimeError(f"native driver failed: {res}")
-    return [{"name": "solvers_vs_amplification_factor", "bound": f"5 solvers x 2 backends x {reps} random (a, b, dt, steps, t_start, state) instances on UnitGrid([3])",
+    return [{"name": "solvers_vs_amplification_factor", "bound": f"5 solvers x 2 backends x {reps} random (a, b, dt, steps, t_start, state) instances on UnitGrid([3]); adaptive euler / runge-kutta on both backends: t_final = t_end and global error <= accepted steps x tolerance",
              "cases": res["cases"], "failures": res["failures"]}]
 
 
@@ -379,7 +381,7 @@ ASSUMPTIONS = [
     "numba executes the compiled loop with CPython semantics (same loop contract proved for the python and numba re-implementations)",
 ]
 NOT_COVERED = [
-    "adaptive steppers (error control loop, dt adjustment, RKF45 tableau): not under contract yet -- the adaptive clauses of the statement are NOT claimed by this check",
+    "adaptive stepping: the analytic closure of the global error bound (comparison of R(z) with e^z) is not proved -- the algebraic half is (every accepted step has estimate <= tolerance, estimators equal their defining formulas, RKF45 tableau order conditions); NaN / exception arms of the loops are outside the real-number model; termination is not proved",
     "solvers/scipy.py (wrapper around solve_ivp, external integrator)",
     "explicit_mpi solver",
 ]
